@@ -58,10 +58,10 @@ fn msg_class(m: &str) -> String {
 }
 
 const NSLOTS: usize = 256;
-static SLOTS: std::sync::OnceLock<Vec<Mutex<Option<PanicInfo>>>> = std::sync::OnceLock::new();
+static SLOTS: std::sync::OnceLock<Vec<Mutex<Vec<PanicInfo>>>> = std::sync::OnceLock::new();
 
-fn slots() -> &'static Vec<Mutex<Option<PanicInfo>>> {
-    SLOTS.get_or_init(|| (0..NSLOTS).map(|_| Mutex::new(None)).collect())
+fn slots() -> &'static Vec<Mutex<Vec<PanicInfo>>> {
+    SLOTS.get_or_init(|| (0..NSLOTS).map(|_| Mutex::new(Vec::new())).collect())
 }
 
 /// thread names are "s<N>" (shard) or "s<N>-r<i>" (that shard's rayon workers); anything else maps to the last slot
@@ -93,8 +93,8 @@ pub fn install_panic_hook() {
             eprintln!("[panic] {} :: {}", loc, msg);
         }
         let mut g = slots()[shard_slot()].lock().unwrap_or_else(|e| e.into_inner());
-        // keep the FIRST panic of a catch scope (rayon may produce several)
-        if g.is_none() {
+        // keep every panic of a catch scope (rayon may produce several; the code under test may catch some itself)
+        if g.len() < 16 {
             let bt = std::backtrace::Backtrace::force_capture().to_string();
             let mut callers = vec![];
             for line in bt.lines() {
@@ -122,27 +122,35 @@ pub fn install_panic_hook() {
                     }
                 }
             }
-            *g = Some(PanicInfo { location: loc, message: msg, callers });
+            if std::env::var("MV_SHOW_PANICS").is_ok() {
+                eprintln!("[panic callers] {:?}", callers);
+            }
+            g.push(PanicInfo { location: loc, message: msg, callers });
         }
     }));
 }
 
 /// Runs `f`, converting a panic (in this thread or in the shard's rayon workers) into Err.
 pub fn catch<R>(f: impl FnOnce() -> R) -> Result<R, PanicInfo> {
+    let slot = shard_slot();
+    slots()[slot].lock().unwrap_or_else(|e| e.into_inner()).clear();
     match catch_unwind(AssertUnwindSafe(f)) {
         Ok(r) => Ok(r),
         Err(payload) => {
-            let got = slots()[shard_slot()].lock().unwrap_or_else(|e| e.into_inner()).take();
-            Err(got.unwrap_or_else(|| {
-                let msg = if let Some(s) = payload.downcast_ref::<&str>() {
-                    s.to_string()
-                } else if let Some(s) = payload.downcast_ref::<String>() {
-                    s.clone()
-                } else {
-                    "<non-string panic>".into()
-                };
-                PanicInfo { location: "?".into(), message: msg, callers: vec![] }
-            }))
+            let msg = if let Some(s) = payload.downcast_ref::<&str>() {
+                s.to_string()
+            } else if let Some(s) = payload.downcast_ref::<String>() {
+                s.clone()
+            } else {
+                "<non-string panic>".into()
+            };
+            let mut got = std::mem::take(&mut *slots()[slot].lock().unwrap_or_else(|e| e.into_inner()));
+            // the panic that propagated is the one whose message matches the payload
+            let pos = got.iter().rposition(|p| p.message == msg).or_else(|| if got.is_empty() { None } else { Some(got.len() - 1) });
+            Err(match pos {
+                Some(i) => got.swap_remove(i),
+                None => PanicInfo { location: "?".into(), message: msg, callers: vec![] },
+            })
         }
     }
 }
